@@ -4,5 +4,8 @@ CONSTANTS MaxCap = 3
           MaxPend = 3
           MaxMsgs = 6
           FixedWrap = FALSE
+          ResizeRuns = TRUE
+          GetRefills = TRUE
+          NbReady = TRUE
 INVARIANTS IndexInRange
 VIEW View
